@@ -93,6 +93,8 @@ bool Json::Private::readToken()
             ++pos.pos;
             switch(*pos.pos)
             {
+            case '\0':
+              return syntaxError(pos, "Unexpected end of file"), false;
             case '"':
             case '\\':
             case '/':
